@@ -30,7 +30,7 @@ RULE = ("Random (cash balance of either sign 1e-2..1e9, reference rate in [-0.05
 ASSUMPTIONS = ["rate constant over the interval (the property's premise)", "relative tolerance 1e-10 against the closed form"]
 REQUIRED = ["C06:split-invariance", "C06:same-instant-zero", "C06:earlier-time-rejected", "C06:query-changes-nothing",
             "C06:twin-query-bit-identical", "C06:positive-never-charged", "C06:negative-charged-at-r+m",
-            "C06:margin-earns-nothing", "C06:rebalance-reports-interest"]
+            "C06:margin-earns-nothing", "C06:rebalance-reports-interest", "C06:failed-rebalance-accrues-once"]
 REQUIRED_CATS = ["rate-quoted-two-sided", "sub-second-spacing", "tz-aware-changing-offsets"]
 REQUIRED_HITS = ["Broker.accrued_interest"]
 TECHNIQUE = "runtime monitoring: closed-form reference model (60-digit decimal) and twin runs over generated accrual schedules"
@@ -147,6 +147,30 @@ def case(ctx, i, tier):
             amt = r.profit_on_idle_cash
             twin_amt = twin.accrued_interest(t, True)
             ctx.check("C06:rebalance-reports-interest", float(amt) == float(twin_amt), reported=float(amt), twin=float(twin_amt))
+        elif mode != "plain" and rng.random() < 0.25:
+            # a rebalance that accrues and then FAILS (insolvent account, or the held contract has lost its quote):
+            # the interest of the stretch may have been credited (C13) - if it was, the accrual clock moved with
+            # it, so that the stretch is never paid twice
+            interleaved = True
+            if mode != "plain-negdeposit":
+                ex.process_EventNBBO(EventNBBO(t, c, float("nan"), float("nan")))
+            r = Rebalancing(time=t)
+            try:
+                b.rebalance(r)
+                failed = False
+            except Exception:
+                failed = True
+            if mode != "plain-negdeposit":
+                ex.process_EventNBBO(EventNBBO(t, c, 100.0, 100.0))
+            ctx.check("C06:setup-rebalance-fails", failed)
+            credited = b.holdings_quantity[Cash()] != bal_before
+            amt = twin.accrued_interest(t, True)
+            if not credited:
+                b.accrued_interest(t, True)
+            ctx.check("C06:failed-rebalance-accrues-once", b.holdings_quantity[Cash()] == twin.holdings_quantity[Cash()],
+                      credited_by_rebalance=credited, account=b.holdings_quantity[Cash()], twin=twin.holdings_quantity[Cash()],
+                      before=bal_before)
+            ctx.cat("failed-rebalance-then-accrual")
         else:
             amt = b.accrued_interest(t, True)
             twin.accrued_interest(t, True)
@@ -179,7 +203,7 @@ def case(ctx, i, tier):
     if mode == "margined":
         # posted margin earns nothing: the balance grew by the formula on cash only (checked above);
         # the margin itself is unchanged by accruals.
-        ctx.check("C06:margin-earns-nothing", b.holdings_margins == twin.holdings_margins and
+        ctx.check("C06:margin-earns-nothing", {k_: v_ for k_, v_ in b.holdings_margins.items() if v_ != 0} == {k_: v_ for k_, v_ in twin.holdings_margins.items() if v_ != 0} and
                   abs(Decimal(got) - want) <= Decimal(1e-10) * abs(want), margins=b.holdings_margins)
     ctx.nontrivial = k >= 2 and (cash0 < 0 or markup > 0 or interleaved)
     ctx.sample = {"mode": mode, "cash0": cash0, "rate": rate, "markup": markup, "total_s": total, "k": k,
